@@ -230,6 +230,22 @@ def oracle_plss(c):
         d6.parse_tracts(config=item)
         if snap_plss(d6)["tracts"] != s1["tracts"]:
             fails.append(Failure(f"plss_channel_parse_tracts_config:{s}", f"{s}={value!r} on {text!r}: parse_tracts(config={item!r}) gives {snap_plss(d6)['tracts']}, config gives {s1['tracts']}", **ctx))
+    if s in TRACTS_KW and s in PLSS_KW and need_pq:
+        # a tract-level keyword of parse() belongs to the tracts that parse creates: parsing them later gives what the configured setting gives
+        d13 = PLSSDesc(text, wait_to_parse=True)
+        d13.parse(**{s: value})
+        d13.parse_tracts()
+        ref13 = PLSSDesc(text, config=item)
+        ref13.parse_tracts()
+        if snap_plss(d13)["tracts"] != snap_plss(ref13)["tracts"]:
+            fails.append(Failure(f"plss_keyword_not_kept_for_later_parse_tracts:{s}", f"{s}={value!r} on {text!r}: parse({s}={value!r}) then parse_tracts() gives {snap_plss(d13)['tracts']}, config {item!r} then parse_tracts() gives {snap_plss(ref13)['tracts']}", **ctx))
+    # Config objects built without any text
+    built = {k: v for k, v in (("parse_qq", True if need_pq else None), (s, value)) if v is not None}
+    for how, cobj in (("Config.from_kwargs", Config.from_kwargs(**built)), ("Config.from_dict", Config.from_dict(dict(built)))):
+        sb = snap_plss(PLSSDesc(text, config=cobj))
+        if sb != s1:
+            fails.append(Failure(f"plss_channel_config_built:{s}", f"{s}={value!r} on {text!r}: {how}({built}) gives {sb['tracts']} {sb['flags']}, the config text gives {s1['tracts']} {s1['flags']}", **ctx))
+            break
     if s in TRACTS_KW and isinstance(value, bool):
         # parse_tracts(setting=False) switches off what the configuration switched on
         d10 = PLSSDesc(text, config=join(pq, item))
@@ -336,6 +352,16 @@ def oracle_tract(c):
             k2.set_twprgesec(twp, rge, f["s"], **{s: value})
             if k.trs != a.trs or k2.trs != a.trs:
                 fails.append(Failure(f"tract_channel_keyword:{s}", f"{s}: keyword gives {k.trs} / {k2.trs}, config gives {a.trs}", **ctx))
+            # a keyword for one axis leaves the other axis to the configuration
+            other_axis = "default_ew" if s == "default_ns" else "default_ns"
+            other_val = "e" if s == "default_ns" else "s"
+            bare_t, bare_r = str(f["t"]), str(f["r"])
+            x1 = Tract(desc, config=other_val)
+            x1.set_twprgesec(bare_t, bare_r, f["s"], **{s: value})
+            x2 = Tract.from_twprgesec(desc, bare_t, bare_r, f["s"], config=other_val, **{s: value})
+            want_x = Tract.from_twprgesec(desc, bare_t, bare_r, f["s"], **{s: value, other_axis: other_val}).trs
+            if x1.trs != want_x or x2.trs != want_x:
+                fails.append(Failure(f"tract_keyword_one_axis_config_other:{s}", f"config {other_val!r} + keyword {s}={value!r}: set_twprgesec gives {x1.trs}, from_twprgesec gives {x2.trs}, expected {want_x}", **ctx))
             opp = {"s": "n", "e": "w"}[value]
             k3 = Tract.from_twprgesec(desc, twp, rge, f["s"], config=opp, **{s: value})
             if k3.trs != a.trs:
